@@ -144,6 +144,61 @@ def run_for(prop: str, repo_root: str, jobs: int = 16) -> dict:
     return summary
 
 
+def _run_patch(prop: str, name: str, patch: str, neutral: bool, repo_root: str) -> dict:
+    """One kept change of a sub-agent (seeded/<name>/patch.diff) applied to a scratch copy of the package."""
+    res = {"name": name, "kind": "neutral-refactor" if neutral else "breaking-change"}
+    tmp = tempfile.mkdtemp(prefix="vstatic-seed-")
+    try:
+        shutil.copytree(os.path.join(repo_root, "pykdebugparser"), os.path.join(tmp, "pykdebugparser"),
+                        ignore=shutil.ignore_patterns("__pycache__"))
+        ap = subprocess.run(["git", "apply", "--whitespace=nowarn", patch], cwd=tmp, capture_output=True, text=True)
+        if ap.returncode:
+            res["status"] = "skipped: the patch no longer applies to the tree under analysis"
+            return res
+        env = dict(os.environ, VSTATIC_OUT=os.path.join(tmp, "out"), PYTHONDONTWRITEBYTECODE="1")
+        p = subprocess.run([sys.executable, "-m", "vstatic", "check", prop, "--tier", "quick", "--repo", tmp],
+                           cwd=VERIF, env=env, capture_output=True, text=True, timeout=600)
+        out = p.stdout + p.stderr
+        res["exit"] = p.returncode
+        res["report"] = [ln.strip()[:240] for ln in out.splitlines() if ln.strip().startswith("FAIL ") or "ANALYSIS-ERROR" in ln][:2]
+        if neutral:
+            res["status"] = {0: "silent", 1: "false-alarm"}.get(p.returncode, "analysis-error")
+        else:
+            res["status"] = {1: "detected", 0: "missed"}.get(p.returncode, "analysis-error")
+    finally:
+        shutil.rmtree(tmp, ignore_errors=True)
+    return res
+
+
+def seeded_for(prop: str, repo_root: str, jobs: int = 16) -> dict:
+    """The changes kept under /verif/seeded: the breaking ones that target this property must be reported by its check,
+    every behaviour-preserving refactoring must leave it silent."""
+    import json
+    root = os.path.join(VERIF, "seeded")
+    todo = []
+    for name in sorted(os.listdir(root)) if os.path.isdir(root) else []:
+        mp, pp = os.path.join(root, name, "meta.json"), os.path.join(root, name, "patch.diff")
+        if not (os.path.isfile(mp) and os.path.isfile(pp)):
+            continue
+        meta = json.load(open(mp))
+        neutral = meta.get("kind") == "neutral-refactor"
+        if neutral or meta.get("property") == prop:
+            todo.append((name, pp, neutral))
+    results = []
+    if todo:
+        with cf.ThreadPoolExecutor(max_workers=jobs) as ex:
+            results = list(ex.map(lambda t: _run_patch(prop, t[0], t[1], t[2], repo_root), todo))
+    return {
+        "breaking_changes": sum(1 for r in results if r["kind"] == "breaking-change" and not r["status"].startswith("skipped")),
+        "detected": sum(1 for r in results if r["status"] == "detected"),
+        "refactorings": sum(1 for r in results if r["kind"] == "neutral-refactor" and not r["status"].startswith("skipped")),
+        "silent": sum(1 for r in results if r["status"] == "silent"),
+        "skipped": sum(1 for r in results if r["status"].startswith("skipped")),
+        "problems": [r for r in results if r["status"] in ("missed", "false-alarm", "analysis-error")],
+        "results": results,
+    }
+
+
 def attach(run, repo) -> None:
     """Hook used by rule modules' ``thorough``: run the property's mutants and record the outcome."""
     s = run_for(run.prop, repo.root)
@@ -152,6 +207,12 @@ def attach(run, repo) -> None:
           f"silent, {s['skipped']} skipped")
     for r in s["missed"] + s["false_alarms"] + s["analysis_errors"]:
         print(f"  selftest {r['status']}: {r['name']} {r.get('report')}")
+    k = seeded_for(run.prop, repo.root)
+    run.extra["independent_changes"] = k
+    print(f"  independent changes: {k['detected']}/{k['breaking_changes']} breaking changes targeting {run.prop} detected, "
+          f"{k['silent']}/{k['refactorings']} behaviour-preserving refactorings silent, {k['skipped']} skipped")
+    for r in k["problems"]:
+        print(f"  independent change {r['status']}: {r['name']} {r.get('report')}")
 
 
 def main(argv=None) -> int:
